@@ -295,6 +295,19 @@ def context_case(_):
                 out["violations"].append(("context|modifier-after-context|%s" % label, "f1.with_context_args(%s).%s(): key %s, with the context alone %s" % (n, label, h[:12], hs[n][:12]),
                                           {"context": n}))
                 break
+    # context arguments attached to a function object that carries others replace them (the identity is that of the last)
+    for n1, c1 in ctxs:
+        for n2, c2 in ctxs:
+            if not c1 or not c2:
+                continue
+            g = fx.f1.with_context_args(dict(c1)).with_context_args(dict(c2))
+            h = g.fn_reference().with_args(1, _memento_context_args=g.context.recursive.context_args).arg_hash
+            out["evaluations"] += 1
+            out["transitions"] += 1
+            if h != hs[n2]:
+                out["violations"].append(("context|attached-over-another|%s" % ("keys-dropped" if set(c1) - set(c2) else "same-keys"),
+                                          "f1.with_context_args(%s).with_context_args(%s): key %s, with %s alone %s" % (n1, n2, h[:12], n2, hs[n2][:12]), {"context": [n1, n2]}))
+                break
     groups = [["absent", "{}"], ["{k:1,j:fn}", "{j:fn,k:1}"]]
     for a, b in itertools.combinations(hs, 2):
         same = hs[a] == hs[b]
